@@ -14,7 +14,8 @@ Tok == <<
   <<37,48,48>>, <<37,48,65>>, <<37,55,70>>, <<37,67,50,37,56,53>>, \* %00 %0A %7F %C2%85
   <<37>>, <<37,52>>, <<37,122,122>>,                              \* % %4 %zz
   <<37,99,51,37,97,57>>, <<37,50,102>>, <<37,69,50,37,56,50>>,    \* %c3%a9 %2f %E2%82 (truncated)
-  <<37,67,50,37,65,48>>, <<37,53,66>>, <<37,53,68>>               \* %C2%A0 (escaped no-break space) %5B %5D
+  <<37,67,50,37,65,48>>, <<37,53,66>>, <<37,53,68>>,              \* %C2%A0 (escaped no-break space) %5B %5D
+  <<160>>                                                         \* a raw no-break space
 >>
 NTokAll == Len(Tok)
 RenderToks(ix) == FlattenSeq([i \in 1..Len(ix) |-> Tok[ix[i]]])
